@@ -10,7 +10,17 @@ type Job struct {
 	Mode   string // hostile | wellbehaved
 	Driver string // "" (contracts) | sim | rel | frames | tables | alloc
 	Sim    bool   // prove against the master JSON transducer (@sim clauses active)
+	Rel    bool   // relational driver: independence from the scratch parameters
 	Only   string // restrict to one obligation kind without invariant inference (e.g. "frame")
+}
+
+func relJobs(keys ...string) []Job {
+	out := hostile(keys...)
+	for i := range out {
+		out[i].Rel = true
+		out[i].Driver = "rel"
+	}
+	return out
 }
 
 func framesOnly(keys ...string) []Job {
@@ -167,6 +177,16 @@ func properties() map[string]*Property {
 			"sync.Pool (a field of the caller-owned ValueReader) is safe for concurrent use",
 		},
 		Subset: "the classical sufficient condition for race freedom of independent calls: every function of rjson and internal/fp (all of them, found by an SSA scan, not only those under contract) never stores into package-level memory, and every store of the functions under contract goes to a local, to freshly allocated memory, or to memory reachable from its own non-input parameters",
+	}
+	ps["C14"] = &Property{ID: "C14", Level: "proof",
+		Jobs:  relJobs("skipValue", "skipValueFast", "handleArrayValues", "handleObjectValues", "SkipValue", "SkipValueFast", "Valid", "HandleArrayValues", "HandleObjectValues"),
+		Kinds: map[string]bool{"rel": true, "inv-init": true, "inv-preserved": true, "bounds": true, "slice": true, "requires@call": true},
+		Assume: []string{
+			"the handler is a deterministic function of (call index, arguments): both runs of the relational proof see the same handler results; it may overwrite the contents of the stack slice (re-entrant use of the same Buffer) - the stack contents are havocked independently in both runs at every handler call, where top == 0 is an invariant",
+			"callees under contract are deterministic functions of their non-scratch arguments (skipFloatDec/skipFloatExp return sentinel errors only)",
+			"M-history (not machine-checked, immediate): a Buffer carries no state but its stack slice, every call's outcome is proved independent of that slice's length, capacity and contents, hence of any history of earlier calls (including failed ones) on the same Buffer",
+		},
+		Subset: "2-safety: for each of the four stack machines, two runs on the same data and handler but arbitrary, different stack slices take the same control flow (up to stack growth), make the same handler calls with the same arguments and return the same (p, err); the five public wrappers return the same outcome for a nil and a non-nil Buffer",
 	}
 	ps["C01"] = &Property{ID: "C01", Level: "proof",
 		Jobs:   append(simJobs("skipValue", "skipFloatDec", "skipFloatExp", "Valid"), hostile("countWhitespace")...),
